@@ -114,6 +114,7 @@ namespace sim
         bool hold_spares_send = false;          // a held descriptor blocks sendfile() only (header goes out, file body stalls)
         std::set<int> blocked;                  // held descriptors that have answered would-block since they were held
         std::map<int, int> fail_next_write;     // descriptor -> errno for its next send()/sendfile()
+        std::map<int, int> fail_next_read;      // descriptor -> errno for its next recv() by a gated thread (the connection is dead from then on)
         // all of this is touched by one thread at a time (gate), so no locking
         void reset()
         {
@@ -406,6 +407,21 @@ ssize_t send(int fd, const void* buf, size_t len, int flags)
 ssize_t recv(int fd, void* buf, size_t len, int flags)
 {
     static auto fn = sim::real<ssize_t (*)(int, void*, size_t, int)>("recv");
+    if (ng_self() >= 0)
+    {
+        sim::TsanIgnore ign;
+        sim::State& s = sim::S();
+        auto fr       = s.fail_next_read.find(fd);
+        if (fr != s.fail_next_read.end())
+        {
+            // the connection died with an error other than a reset (ETIMEDOUT: the peer vanished, EHOSTUNREACH, ...)
+            int e = fr->second;
+            s.fail_next_read.erase(fr);
+            ::shutdown(fd, SHUT_RDWR);
+            errno = e;
+            return -1;
+        }
+    }
 #if defined(__SANITIZE_THREAD__)
     if (ng_self() >= 0)
         return sim_raw_recv(fd, buf, len, flags);
@@ -490,6 +506,7 @@ int close(int fd)
         s.held.erase(fd);
         s.plan.erase(fd);
         s.fail_next_write.erase(fd);
+        s.fail_next_read.erase(fd);
         s.blocked.erase(fd);
         s.sends_on.erase(fd);
         s.released_once.erase(fd);
@@ -620,6 +637,11 @@ namespace sim
     {
         TsanIgnore ign;
         S().fail_next_write[fd] = err;
+    }
+    inline void fail_next_read(int fd, int err)
+    {
+        TsanIgnore ign;
+        S().fail_next_read[fd] = err;
     }
     inline void hold(int fd)
     {
